@@ -2,10 +2,10 @@
 (***************************************************************************)
 (* C25 enumerator.  TLC lists every admissible lattice network (module     *)
 (* FracMesh, PART 1) of 1..maxf fractures for every configuration          *)
-(*   <<dim, <<nx, ny, nz>>, maxf, ordered, t2, t3>>  in Boxes               *)
+(*   <<dim, <<nx, ny, nz>>, maxf, ordered, t1, t2, t3, tag>>  in Boxes      *)
 (* (ordered = TRUE: all ORDERED sequences of fractures - the order is the   *)
 (* order in which porepy splits the host grid; FALSE: one canonical order   *)
-(* per set; t2, t3: thinning of the second / third fracture - only one in   *)
+(* per set; t1, t2, t3: thinning of the 1st / 2nd / 3rd fracture - one in   *)
 (* t of the extensions is kept, chosen by a hash salted with Salt; 1 = all: *)
 (* the configuration is then enumerated exhaustively),                      *)
 (* checks the model laws on each and emits it with the                      *)
@@ -36,8 +36,9 @@ Code(f) == ((((f[1][1] * 8 + f[1][2]) * 8 + f[1][3]) * 8 + f[2][1]) * 8 + f[2][2
 Net == [dim |-> cfg[1], box |-> cfg[2], fracs |-> fr]
 \* deterministic pseudo-random thinning of the extensions of fr by f
 Hash(f) == (Code(f) % 9973) * 31 + (Code(f) % 127) * 7
-Keep(f) == LET t == IF Len(fr) = 1 THEN cfg[5] ELSE IF Len(fr) = 2 THEN cfg[6] ELSE 1 IN
+Keep(f) == LET t == IF Len(fr) = 0 THEN cfg[5] ELSE IF Len(fr) = 1 THEN cfg[6] ELSE IF Len(fr) = 2 THEN cfg[7] ELSE 1 IN
            IF t = 1 THEN TRUE
+           ELSE IF fr = <<>> THEN (Hash(f) + Salt) % t = 0
            ELSE (Hash(f) + 13 * Hash(fr[Len(fr)]) + 5 * Hash(fr[1]) + Salt) % t = 0
 
 Init == cfg \in Boxes /\ fr = <<>>
@@ -51,7 +52,7 @@ Next == /\ Len(fr) < cfg[3]
         /\ UNCHANGED cfg
 Spec == Init /\ [][Next]_vars
 
-Emit == fr # <<>> => PrintT(ToJson([dim |-> cfg[1], box |-> cfg[2], fracs |-> fr, ordered |-> cfg[4],
+Emit == fr # <<>> => PrintT(ToJson([dim |-> cfg[1], box |-> cfg[2], fracs |-> fr, ordered |-> cfg[4], tag |-> cfg[8],
                                      stats |-> Stats(Net)]))
 Laws == fr # <<>> => /\ Admissible(Net)
                      /\ \A k \in 1..Len(fr) : FracOK(cfg[1], cfg[2], fr[k])
